@@ -164,6 +164,11 @@ m('asm-dispatch-unguarded', 'C14', 'ASM-DISPATCH', 'src/range_dec.rs',
   '            if self.inner.is_buffer() && count > 0 {\n                return self.decode_direct_bits_x86_64(count);', 'decode_direct_bits:dispatch')
 m('hash3-not-estimated', 'C17', 'ESTIMATE-TWIN', 'src/lz/hash234.rs', '(HASH2_SIZE + HASH3_SIZE + Self::get_hash4_size(dict_size))', '(HASH2_MASK + HASH2_SIZE + Self::get_hash4_size(dict_size))', 'Hash234::get_mem_usage~Hash234::new')
 
+m('xz-writer-alignment-table-differs', 'C19', 'VALIDATE-PARITY', 'src/xz/writer.rs', 'FilterType::BcjIA64 => filter.property % 16 == 0,', 'FilterType::BcjIA64 => filter.property % 4 == 0,', 'XZWriter:bcj-offset-alignment-table')
+m('xz-writer-delta-range-dropped', 'C19', 'VALIDATE-PARITY', 'src/xz/writer.rs', 'FilterType::Delta => (1..=256).contains(&filter.property),', 'FilterType::Delta => true,', 'XZWriter:delta-distance-range')
+m('bcj-checked-position-add', 'C06', 'POS-WRAP', 'src/filter/bcj/x86.rs', 'dest = src.wrapping_add((self.pos + i) as i32);', 'dest = src + (self.pos + i) as i32;', 'BCJFilter::x86_code:position-arithmetic-wraps')
+m('lzma2-props-unchecked', 'C06', 'BOUNDS', 'src/lzma2_reader.rs', None, None, 'index<16')
+
 M = [x for x in M if x['old'] is not None]
 
 
